@@ -121,6 +121,9 @@ def run(prog, res):
   divisors.check(prog, res, [f for f in prog.all_functions()
                              if f.parent is None])
   res.floor('D3', 7)
+  from ..rules import staleloop as _sl
+  _sl.check(prog, res, [f for f in prog.all_functions() if f.parent is None])
+  res.floor('X6', 250)
   res.floor('N0', 250)
   res.floor('V1', 60)
   res.floor('V1s', 3)
